@@ -372,3 +372,23 @@ Example real_document_calls_conform :
                   (Pipe.CostCompose.c_ops r_ES r_A) (Pipe.CostCompose.c_frs r_ES r_A) [] [(rn "v", Values.JInt 7)] (-1)))
   = true.
 Proof. vm_compute. reflexivity. Qed.
+
+(** * final round: the example document is VALID in the sense of the specification, over a schema that
+    meets the hypotheses of C04's verdict theorem — the premises of [C14_valid_document_cost_calls] *)
+From ApiFu Require Vld.Hyps Vld.ValidSpec Vld.ProofsSubscription Vld.MemoEquiv.
+Example r_valid_instance :
+  Vld.Hyps.schema_ok r_VS = true /\ Vld.Hyps.schema_args_ok r_VS = true /\ Vld.Hyps.schema_impls_ok r_VS = true /\
+  Vld.Hyps.schema_defaults_ok r_VS = true /\ Vld.Hyps.schema_types_wf r_VS = true /\
+  Vld.ValidSpec.Valid r_VS [] r_D.
+Proof. unfold Vld.ValidSpec.Valid. vm_compute. repeat split; reflexivity. Qed.
+
+Example r_positions_distinct :
+  Vld.ProofsSubscription.doc_set_positions_distinct r_D /\ Vld.MemoEquiv.doc_field_positions_distinct r_D.
+Proof.
+  unfold Vld.ProofsSubscription.doc_set_positions_distinct, Vld.MemoEquiv.doc_field_positions_distinct.
+  split.
+  - match goal with |- NoDup ?l => let l' := eval vm_compute in l in change (NoDup l') end.
+    repeat (constructor; [cbn [In]; intuition discriminate|]). constructor.
+  - match goal with |- NoDup ?l => let l' := eval vm_compute in l in change (NoDup l') end.
+    repeat (constructor; [cbn [In]; intuition discriminate|]). constructor.
+Qed.
